@@ -187,6 +187,15 @@ def plan(tier, prop):
                 and sum(sum(t) for t in it["layout"]) <= (4 if tier == "quick" else 5):
             reuse.append(dict(it, reuse=True))
     items += reuse
+    # sparse probes with MANY plates (running plate numbers with two digits, more plates than any enumerated layout);
+    # default random answers plus every single deviation from them
+    wide = [[[8], [8], [8]], [[1] * 12], [[2, 2, 2, 2], [1, 1, 1, 1, 1, 1, 1]], [[4], [4], [4]]]
+    for lay in wide:
+        for kind, params in (("segregate", {"max_plate_size": 1}), ("segregate", {"max_plate_size": 2}), ("permutation", {"force": None}),
+                             ("pairwise", {"subset_size": 1, "anchor_size": 0}), ("pairwise", {"subset_size": 2, "anchor_size": 1}),
+                             ("fixed", {"plate_size": 1}), ("fixed", {"plate_size": 2}), ("merge_min", {"min_size": 2}),
+                             ("merge_top_bottom", {"n_iterations": 1}), ("n_per_sample", {"min_n_cell_line_plates": 2}), ("optimal", {})):
+            items.append({"op": kind, "params": params, "layout": lay, "n_obs": 0, "pool": "mixed", "bound": 0 if tier == "quick" else 1})
     if prop == "C13":
         items = [it for it in items if not it["op"].startswith("holdout") and it["op"] not in ("permutation", "ensemble")]
         for lay in lay_gen:
@@ -443,7 +452,7 @@ def run_item(prop, item, col):
     def body(ch):
         return execute(item, ch)
 
-    for ch, (before, out, exc) in explore(body, max_leaves=(LEAF_CAP, info)):
+    for ch, (before, out, exc) in explore(body, bound=item.get("bound"), max_leaves=(LEAF_CAP, info)):
         col.evaluations += 1
         col.transitions += 1
         col.count("op:" + item["op"] + ("(reused object)" if item.get("reuse") else ""))
